@@ -64,6 +64,12 @@ fn all_ops() -> Vec<BinOp> {
 
 pub const FLOATS: [&str; 15] = ["0.0", "0.1", "0.2", "0.5", "1.0", "1.5", "2.0", "3.25", "7.0", "100.75", "16777216.0", "16777217.0", "0.000001", "123456789.125", "1000000.0"];
 
+/// whole values at and above 2^53 (float64) / 2^24 (float32), whose shortest decimal spelling is not the
+/// exact value, next to small whole values: a sum or product worked out exactly from the spellings differs
+/// from the rounded run-time result
+pub const FLOATS_BIG64: [&str; 8] = ["9007199254740992.0", "9007199254740993.0", "1152921504606846976.0", "4611686018427387904.0", "110.0", "3.0", "1.0", "129.0"];
+pub const FLOATS_BIG32: [&str; 7] = ["16777216.0", "16777217.0", "33554432.0", "1099511627776.0", "3.0", "1.0", "5.0"];
+
 fn cases_list(tier: Tier) -> Vec<Value> {
     let mut v = Vec::new();
     // (a) literal acceptance: each type × spelling × form
@@ -97,6 +103,7 @@ fn cases_list(tier: Tier) -> Vec<Value> {
         v.push(json!({"kind": "div0", "ty": k.name(), "operands": "runtime"}));
         v.push(json!({"kind": "div0", "ty": k.name(), "operands": "literal"}));
         v.push(json!({"kind": "print", "ty": k.name()}));
+        v.push(json!({"kind": "dropped-literal-operations", "ty": k.name()}));
     }
     // exhaustive 8-bit arithmetic: all 65536 operand pairs
     for ty in ["int8", "uint8"] {
@@ -111,6 +118,11 @@ fn cases_list(tier: Tier) -> Vec<Value> {
         for op in ["add", "sub", "mul", "div", "lt", "eq"] {
             for operands in ["runtime", "literal", "literal-left", "literal-right"] {
                 v.push(json!({"kind": "float-pairs", "f32": f32, "op": op, "operands": operands}));
+            }
+        }
+        for op in ["add", "sub", "mul"] {
+            for operands in ["runtime", "literal", "literal-left", "literal-right"] {
+                v.push(json!({"kind": "float-pairs", "f32": f32, "op": op, "operands": operands, "set": "big-whole"}));
             }
         }
         v.push(json!({"kind": "float-print", "f32": f32}));
@@ -245,6 +257,29 @@ fn build(case: &Value) -> Option<(Program, String, bool)> {
             }
             let _ = y1;
             site = format!("pairs;ty={};op={};operands={}", k.name(), opname(op), mode);
+        }
+        "dropped-literal-operations" => {
+            // operators on two literals of the type's extremes whose value nobody reads: `let _ = a op b;`,
+            // an unused `let q = a op b;`, a statement `a op b;` - each followed by a print
+            let k = kind_of(case["ty"].as_str().unwrap());
+            let bs = boundary(k);
+            let (lo, hi) = (*bs.iter().min().unwrap(), *bs.iter().max().unwrap());
+            let mut i = 0;
+            for (a, bb) in [(hi, 1), (hi, hi), (lo, 1), (1, hi), (hi - 1, 2), (lo, hi)] {
+                for op in [BinOp::Div, BinOp::Mul, BinOp::Add, BinOp::Sub, BinOp::Lt, BinOp::Eq] {
+                    if op == BinOp::Div && bb == 0 {
+                        continue;
+                    }
+                    let e = bin(op, lit(k, a), lit(k, bb));
+                    let q = n.fresh("q");
+                    b.push(Stmt::Let(Pat::Wild, None, e.clone()));
+                    b.push(let_(q, e.clone()));
+                    b.push(st(e));
+                    b.push(st(println(add(s("after "), i2s(int(i))))));
+                    i += 1;
+                }
+            }
+            site = format!("dropped-literal-operations;ty={}", k.name());
         }
         "neg" => {
             let k = kind_of(case["ty"].as_str().unwrap());
@@ -384,8 +419,10 @@ fn build(case: &Value) -> Option<(Program, String, bool)> {
                 items.push(fn_def("apply", vec![(x, ft.clone()), (y, ft.clone())], Some(Ty::Str), res));
                 let operands = case["operands"].as_str().unwrap_or("runtime");
                 let (hx, hy) = (n.fresh("hx"), n.fresh("hy"));
-                for a in FLOATS {
-                    for bb in FLOATS {
+                let big = case["set"].as_str() == Some("big-whole");
+                let set: Vec<&str> = if !big { FLOATS.to_vec() } else if f32 { FLOATS_BIG32.to_vec() } else { FLOATS_BIG64.to_vec() };
+                for a in set.iter().copied() {
+                    for bb in set.iter().copied() {
                         if op == BinOp::Div && bb == "0.0" {
                             continue;
                         }
@@ -405,7 +442,7 @@ fn build(case: &Value) -> Option<(Program, String, bool)> {
                         }
                     }
                 }
-                site = format!("float-pairs;f32={};op={};operands={}", f32, opn, operands);
+                site = format!("float-pairs;f32={};op={};operands={}{}", f32, opn, operands, if big { ";set=big-whole" } else { "" });
             }
         }
         _ => return None,
@@ -427,7 +464,7 @@ impl Family for Numbers {
         300
     }
     fn rule(&self) -> &'static str {
-        "literals: 8 integer types x 8 spellings {0,1,max-1,max,max+1,2max,30 digits,leading zeros} x {suffixed, under unary minus, plain/annotated for int32}, and all 256 values of int8/uint8; arithmetic: all pairs of a 14-value boundary set x {+,-,*,/,<,>,<=,>=,==,!=} for 8 integer types with run-time, literal and mixed operands; negation; division by zero; printing of every boundary value; all 65536 operand pairs of int8/uint8 per operator (thorough; quick: int8 + and uint8 <); float32/float64 over a 15-value set (incl. whole numbers) with run-time, literal, literal-left and literal-right operands; literals at, just above and just below 4 float32 midpoints; negative zero written as a literal, a negated variable and a divisor; 11 float32 / float64 literals around the largest finite value (its exact and its shortest spelling, just below / at / above the point from which rounding gives infinity). oracle: accepted iff in range (typer diagnostic otherwise), printed values = wrapping/truncating reference arithmetic. non-trivial = programs whose reference output contains a wrapped, negative or boundary result; distinct = distinct source text"
+        "literals: 8 integer types x 8 spellings {0,1,max-1,max,max+1,2max,30 digits,leading zeros} x {suffixed, under unary minus, plain/annotated for int32}, and all 256 values of int8/uint8; arithmetic: all pairs of a 14-value boundary set x {+,-,*,/,<,>,<=,>=,==,!=} for 8 integer types with run-time, literal and mixed operands; negation; division by zero; printing of every boundary value; all 65536 operand pairs of int8/uint8 per operator (thorough; quick: int8 + and uint8 <); float32/float64 over a 15-value set (incl. whole numbers) with run-time, literal, literal-left and literal-right operands; + - * over 8 (float64) / 7 (float32) whole values at and above 2^53 / 2^24 whose shortest spelling is not the exact value, same four operand modes; per integer type 36 operators on two literals at the type's extremes whose value is dropped (let _, unused let, statement); literals at, just above and just below 4 float32 midpoints; negative zero written as a literal, a negated variable and a divisor; 11 float32 / float64 literals around the largest finite value (its exact and its shortest spelling, just below / at / above the point from which rounding gives infinity). oracle: accepted iff in range (typer diagnostic otherwise), printed values = wrapping/truncating reference arithmetic. non-trivial = programs whose reference output contains a wrapped, negative or boundary result; distinct = distinct source text"
     }
     fn cases(&self, tier: Tier) -> Box<dyn Iterator<Item = Value> + '_> {
         Box::new(cases_list(tier).into_iter())
